@@ -281,42 +281,64 @@ class Database:
 #
 async def initial_migration(c: aiosqlite.Connection) -> None:
     await c.execute(
-        "create table versions (version integer primary key, "
+        "create table if not exists versions (version integer primary key, "
         "date text default CURRENT_TIMESTAMP)"
     )
     await c.execute(
-        "create table user_server (id integer primary key, "
+        "create table if not exists user_server (id integer primary key, "
         "uid_vv integer, "
         "date text default CURRENT_TIMESTAMP)"
     )
     await c.execute(
-        "create table mailboxes (id integer primary key, "
+        "create table if not exists mailboxes (id integer primary key, "
         "name text,"
         "uid_vv integer, attributes text, "
         "mtime integer, next_uid integer, "
         "num_msgs integer, num_recent integer, "
         "date text default CURRENT_TIMESTAMP)"
     )
-    await c.execute("create unique index mailbox_names on mailboxes (name)")
     await c.execute(
-        "create table sequences (id integer primary key, "
+        "create unique index if not exists mailbox_names on mailboxes (name)"
+    )
+    await c.execute(
+        "create table if not exists sequences (id integer primary key, "
         "name text, mailbox_id integer, "
         "sequence text, "
         "date text default CURRENT_TIMESTAMP)"
     )
     await c.execute(
-        "create unique index seq_name_mbox on sequences (name,mailbox_id)"
+        "create unique index if not exists seq_name_mbox "
+        "on sequences (name,mailbox_id)"
     )
-    await c.execute("create index seq_mbox_id on sequences (mailbox_id)")
+    await c.execute(
+        "create index if not exists seq_mbox_id on sequences (mailbox_id)"
+    )
 
 
 ####################################################################
 #
+async def _add_column(c: aiosqlite.Connection, table: str, column: str) -> None:
+    """
+    `ALTER TABLE .. ADD COLUMN` that does not mind the column being there
+    already.
+
+    NOTE: The statements of a migration are committed as they go, the row in
+          `versions` that records the migration only afterwards. If we die in
+          between, the migration is run again at the next start, and it must
+          not fail because its work has already been done.
+    """
+    try:
+        await c.execute(f"alter table {table} add column {column}")
+    except aiosqlite.OperationalError as e:
+        if "duplicate column name" not in str(e):
+            raise
+
+
 async def add_uids_to_mbox(c: aiosqlite.Connection) -> None:
     """
     Adds a uids text column to the mailbox.
     """
-    await c.execute("alter table mailboxes add column uids text default ''")
+    await _add_column(c, "mailboxes", "uids text default ''")
 
 
 ####################################################################
@@ -332,9 +354,7 @@ async def add_last_check_time_to_mbox(c: aiosqlite.Connection) -> None:
 
     The value is stored as integer seconds since the unix epoch.
     """
-    await c.execute(
-        "alter table mailboxes add column last_resync integer default 0"
-    )
+    await _add_column(c, "mailboxes", "last_resync integer default 0")
 
 
 ####################################################################
@@ -344,9 +364,7 @@ async def folders_can_be_subscribed(c: aiosqlite.Connection) -> None:
     Folders can be subscribed to. When they are subscribed to this bit gets set
     to true.
     """
-    await c.execute(
-        "alter table mailboxes add column subscribed integer default 0"
-    )
+    await _add_column(c, "mailboxes", "subscribed integer default 0")
 
 
 ####################################################################
@@ -369,7 +387,7 @@ async def add_msg_keys_to_mbox(c: aiosqlite.Connection) -> None:
     """
     Adds a MH msg keys text column to the mailbox.
     """
-    await c.execute("alter table mailboxes add column msg_keys text default ''")
+    await _add_column(c, "mailboxes", "msg_keys text default ''")
 
 
 # The list of migrations we have so far. These are executed in order. They are
